@@ -57,8 +57,8 @@ def run(ck, rng, tier):
             V, _ = np.linalg.qr(np.array([[rng.gauss(0, 1) for _ in range(m)] for _ in range(m)]))
             A = (U * np.logspace(0, math.log10(rng.choice((1.0, 10.0, 100.0))), m)) @ V.T
             cvec = np.array([rng.uniform(-5, 5) for _ in range(m)])
-            if c == 2:      # a change of units: features of order 1e-6 (offset 1e-4)
-                A, cvec = A * 1e-6, cvec * 1e-4 + 3e-4
+            if c == 2:      # a change of units: features of order 1e-7 (offset 1e-4): every entry of the pooled covariance is below 1e-12
+                A, cvec = A * 1e-7, cvec * 1e-4 + 3e-4
             elif c == 3:    # features of order 1e6
                 A, cvec = A * 1e6, cvec * 1e6
             elif c == 4:    # x -> 1e6 x + 1e8: an exact zero becomes exactly 1e8
